@@ -177,6 +177,15 @@ def run(ck: Checker):
     cfg = build_cfg(f, ck.repo, None)
     ck.analysed_func(f, cfg)
     init = {n.id for n in cfg.nodes if isinstance(n.ast, ast.Assign) and isinstance(n.ast.targets[0], ast.Subscript) and dotted(n.ast.targets[0].value) == 'self.id_to_refcount'}
+    # `self.id_to_refcount.setdefault(ident, 0)`: initialises only if absent, by construction
+    setdef = {}
+    for n in cfg.nodes:
+        a = header_expr(n)
+        for c in (calls_in(a) if a is not None else []):
+            r, me = method_of(c)
+            if me == 'setdefault' and r is not None and dotted(r) == 'self.id_to_refcount' and len(c.args) == 2:
+                setdef[n.id] = c.args[1]
+    init |= set(setdef)
     mk = [n for n in cfg.nodes if header_expr(n) is not None and any(dotted(c.func) == 'self._make_proxy' for c in calls_in(header_expr(n)))]
     ck.need(mk, f'{f.key}: proxy construction not found')
     if not init:
@@ -187,7 +196,7 @@ def run(ck: Checker):
     p = path_avoiding(cfg, [cfg.entry], {mk[0].id}, avoid=init | tests)
     store_obj = {n.id for n in cfg.nodes if isinstance(n.ast, ast.Assign) and isinstance(n.ast.targets[0], ast.Subscript) and dotted(n.ast.targets[0].value) == 'self.id_to_obj'}
     p2 = path_avoiding(cfg, [cfg.entry], {mk[0].id}, avoid=store_obj)
-    zero = all(isinstance(cfg.nodes[i].ast.value, ast.Constant) and cfg.nodes[i].ast.value.value == 0 for i in init)
+    zero = all(isinstance(v, ast.Constant) and v.value == 0 and not isinstance(v.value, bool) for v in (setdef[i] if i in setdef else getattr(cfg.nodes[i].ast, 'value', None) for i in init))
     ok = p is None and p2 is None and zero
     # ...and only if absent: the same server-side object can be wrapped again (a hosted method returning
     # managed(x) twice) while earlier proxies still hold references; resetting the count would forget them
@@ -196,7 +205,7 @@ def run(ck: Checker):
         if n.kind == 'test' and isinstance(n.ast, ast.Compare) and len(n.ast.ops) == 1 and isinstance(n.ast.ops[0], (ast.NotIn, ast.In)) and dotted(n.ast.comparators[0]) == 'self.id_to_refcount':
             absent[n.id] = 'T' if isinstance(n.ast.ops[0], ast.NotIn) else 'F'
     for i in init:
-        if i == mk[0].id:
+        if i == mk[0].id or i in setdef:
             continue
         pth = path_avoiding(cfg, [cfg.entry], {i}, edge_ok=lambda e: not (e.src in absent and e.kind == absent[e.src]))
         if pth is not None:
@@ -212,6 +221,14 @@ def run(ck: Checker):
     sup = [n for n in walk_shallow_func(f.node) if isinstance(n, ast.Call) and method_of(n)[1] == 'decref' and isinstance(method_of(n)[0], ast.Call) and dotted(method_of(n)[0].func) == 'super']
     f2 = srv.method('incref')
     inc = [n for n in walk_shallow_func(f2.node) if isinstance(n, ast.AugAssign) and isinstance(n.op, ast.Add) and isinstance(n.value, ast.Constant) and n.value.value == 1 and 'id_to_refcount' in norm_text(n.target)]
+    # `d[k] = d[k] + 1` (or `1 + d[k]`) is the same increment written out
+    for n in walk_shallow_func(f2.node):
+        if isinstance(n, ast.Assign) and len(n.targets) == 1 and isinstance(n.targets[0], ast.Subscript) and 'id_to_refcount' in norm_text(n.targets[0]) and isinstance(n.value, ast.BinOp) and isinstance(n.value.op, ast.Add):
+            ops = [n.value.left, n.value.right]
+            one = [o for o in ops if isinstance(o, ast.Constant) and o.value == 1 and not isinstance(o.value, bool)]
+            same = [o for o in ops if isinstance(o, ast.Subscript) and norm_text(o) == norm_text(n.targets[0])]
+            if len(one) == 1 and len(same) == 1:
+                inc.append(n)
     lockd = any(isinstance(w, ast.With) and dotted(w.items[0].context_expr) == 'self.mutex' and any(x in inc for b in w.body for x in ast.walk(b)) for w in walk_shallow_func(f2.node))
     ok = len(sup) == 1 and len(inc) == 1 and lockd
     ck.ob('C13-4', f, (f.node.lineno, 'Server.incref/decref'), ok, 'incref adds exactly 1 under the server mutex; decref delegates to the standard implementation (delete at zero)' if ok else 'server-side incref/decref do not add exactly one under the mutex / delegate to the standard decrement')
